@@ -50,10 +50,15 @@ class Recorder:
         self.case_op: dict[str, int] = {}
 
     def tid(self) -> int:
-        ident = threading.get_ident()
-        if ident not in self.threads:
-            self.threads[ident] = len(self.threads) + 1
-        return self.threads[ident]
+        # a number per thread OBJECT: the OS re-uses thread idents as soon as a thread has ended
+        t = threading.current_thread()
+        n = getattr(t, "_verif_tid", None)
+        if n is None or getattr(t, "_verif_rec", None) is not self:
+            with self.lock:
+                n = len(self.threads) + 1
+                self.threads[n] = n
+            t._verif_tid, t._verif_rec = n, self
+        return n
 
     def num(self, key: Any) -> int:
         if key not in self.ids:
@@ -74,6 +79,8 @@ class Recorder:
             op = self.op_of_label.get(data["case"].operation.label, 0)
         if name == "unit.worker.send":
             self.emit({"e": "SEND", "thr": self.tid(), "op": op})
+        elif name == "unit.worker.case":
+            self.emit({"e": "CASE", "thr": self.tid(), "op": op})
         elif name == "stateful.thread.step":
             self.emit({"e": "STEP", "thr": self.tid(), "op": op, "stop": bool(data["stop"])})
         elif name == "worker.exit":
